@@ -150,6 +150,9 @@ type File struct {
 	Messages  []*Message
 	Enums     []*Enum
 	Dep       *File // optional user dependency file
+	// ImportsDescriptor: the file imports google/protobuf/descriptor.proto directly (as files that declare
+	// custom options do).
+	ImportsDescriptor bool
 	// DepUnused: the dependency is in the request but not imported by the file.
 	DepUnused bool
 }
